@@ -489,9 +489,6 @@ theorem slice_skip' (a b : Bytes) (n o off k : Nat) (h : a.length = n) (ho : off
     slice (a ++ b) off k = slice b o k := by
   subst ho; exact slice_skip a b n o k h
 
-/-- The complete file `write_pack_index_v2` writes. -/
-def v2File (H : Bytes → Bytes) (es : List IdxEntry) (cs : Bytes) : Bytes := v2Body es cs ++ H (v2Body es cs)
-
 def v2Pre : Bytes := Gen.Pack.idxMagic ++ beBytes 4 Gen.Pack.idxV2Version
 
 theorem v2Pre_length : v2Pre.length = 8 := by simp [v2Pre, Gen.Pack.idxMagic, beBytes_length]
@@ -555,10 +552,6 @@ theorem load_v2 (H : Bytes → Bytes) (es : List IdxEntry) (cs : Bytes) (hs : Na
     rw [cumul_eq_countLe, countLe_255]
   unfold loadIndex
   simp only [hmagic, if_true, hver, hfan, hlast]
-
-/-- The loaded v2 index of the written file. -/
-def v2Idx (H : Bytes → Bytes) (es : List IdxEntry) (cs : Bytes) (hs : Nat) : Idx :=
-  ⟨2, hs, v2File H es cs, (List.range' 0 256).map (cumul es), es.length, Gen.Pack.v2NameAt⟩
 
 theorem nameAt_v2 (H : Bytes → Bytes) (es : List IdxEntry) (cs : Bytes) (hs : Nat)
     (hnames : ∀ e ∈ es, e.name.length = hs) (i : Nat) (hi : i < es.length) :
